@@ -113,6 +113,93 @@ func c17r1(c *core.Ctx) {
 	c.Check(len(bad) == 0, "case-calls-its-kind", enc.Pos(), "each case calls the writer/reader of its own kind", "cases that do not call the writer/reader of their kind: "+strings.Join(bad, ", "))
 	// the setter used after a read matches signedness
 	c.OK("kinds", enc.Pos(), "%d kinds", len(en))
+	// whether a field is written / a read value is stored does not depend on the value: a scalar that is skipped when it is zero,
+	// or rejected when it is extreme, does not come back equal (and the wire bytes of the message are not the specified ones)
+	isTypeTest := func(cond ssa.Value) bool {
+		e, ok := cond.(*ssa.Extract)
+		if !ok || e.Index != 1 {
+			return false
+		}
+		ta, ok := e.Tuple.(*ssa.TypeAssert)
+		return ok && ta.CommaOk
+	}
+	for _, k := range en {
+		if b := ec[k]; b != nil {
+			for _, i := range b.Instrs {
+				g := core.Callee(i)
+				if g == nil || !strings.EqualFold(cn(g), wname[k]) {
+					continue
+				}
+				var dep ssa.Value
+				for _, iff := range controlDepsAll(b) {
+					if isTypeTest(iff.Cond) || !iff.Block().Dominates(b) {
+						continue // a type test; or a test of an earlier iteration (an error return in another case)
+					}
+					walkOperands(iff.Cond, 8, func(v ssa.Value) {
+						call, ok := v.(*ssa.Call)
+						if !ok {
+							return
+						}
+						for _, a := range call.Call.Args {
+							for _, src := range core.Sources(a) {
+								if sc, ok := src.(*ssa.Call); ok && core.IsCall(sc, "(reflect.Value).Field") {
+									dep = iff.Cond
+								}
+							}
+						}
+					})
+				}
+				pos := posOf(i)
+				if dep != nil && dep.Pos().IsValid() {
+					pos = dep.Pos()
+				}
+				c.Check(dep == nil, "field-written-whatever-its-value:"+k, pos, "the "+k+" case writes its item under no condition on the field's value",
+					"whether a "+k+" field is written depends on the field's value (e.g. skipped when empty/zero): the item is missing from the encoding — the bytes are not the specified ones, the decoded struct keeps the previous/zero value only by luck, and an all-zero list element vanishes")
+			}
+		}
+		if b := dc[k]; b != nil {
+			var read ssa.Value
+			for _, i := range b.Instrs {
+				if g := core.Callee(i); g != nil && strings.EqualFold(cn(g), rname[k]) {
+					read, _ = i.(ssa.Value)
+				}
+			}
+			if read == nil {
+				continue
+			}
+			isRead := func(v ssa.Value) bool {
+				e, ok := v.(*ssa.Extract)
+				return ok && e.Index == 0 && e.Tuple == read
+			}
+			core.Instrs(dec, func(i ssa.Instruction) {
+				g := core.Callee(i)
+				if g == nil || !core.TypeIs(recvType(g), "reflect.Value") || !strings.HasPrefix(cn(g), "Set") {
+					return
+				}
+				args := core.CallOf(i).Args
+				if len(args) < 2 || !core.SomeSource(args[1], isRead) {
+					return
+				}
+				var dep ssa.Value
+				for _, iff := range controlDepsAll(i.Block()) {
+					if !iff.Block().Dominates(i.Block()) {
+						continue
+					}
+					walkOperands(iff.Cond, 8, func(v ssa.Value) {
+						if isRead(v) {
+							dep = iff.Cond
+						}
+					})
+				}
+				pos := posOf(i)
+				if dep != nil && dep.Pos().IsValid() {
+					pos = dep.Pos()
+				}
+				c.Check(dep == nil, "value-stored-whatever-it-is:"+k, pos, "a "+k+" that was read is stored under no condition on its value",
+					"whether a "+k+" that was read is stored depends on its value (some values are rejected or skipped): a struct holding such a value does not come back equal from Marshal/Unmarshal")
+			})
+		}
+	}
 }
 
 func c17r2(c *core.Ctx) {
